@@ -44,7 +44,25 @@ def check_C11(ctx):
                                                       "RestoredOutside", "StepBound", "EmitCase"]))
     if not cases:
         raise Infra("MC_C11 emitted no cases")
-    obs = ctx.run_cases(cases)
+    # every case whose loop carries two or more modifiers once more with the modifiers written in another order
+    def n_mods(nodes):
+        m = 0
+        for n in nodes:
+            if isinstance(n, dict):
+                if n.get("t") == "for":
+                    m = max(m, sum(1 for f in ("rev", "off", "lim", "cols") if f in n))
+                for f in ("body", "else"):
+                    if isinstance(n.get(f), list):
+                        m = max(m, n_mods(n[f]))
+        return m
+    twins = []
+    for k, c in enumerate(cases):
+        if n_mods(c["prog"]) >= 2:
+            c2 = dict(c)
+            c2["id"] = "%s~mo%d" % (c["id"], k % 5 + 1)
+            c2["spell"] = dict(c.get("spell") or {}, modorder=k % 5 + 1)
+            twins.append(c2)
+    obs = ctx.run_cases(cases + twins)
     ctx.validate(obs)
     omni(ctx, offset=11)
     return finish(ctx, rule="every case of the bounded families G1-G7 of MC_C11 (L=%d) is explored step by step by TLC "
@@ -432,7 +450,7 @@ def check_C07(ctx):
 # --------------------------------------------------------------------------- C14
 
 def check_C14(ctx):
-    cases, _ = ctx.tlc_mc("MC_C14", mc_cfg({}, ["Decided", "IncludeIsInlining", "NestedAndLoop", "EmptyIsIncluded", "ChangedFilesSeen", "TrimStopsAtTheEdge", "FailuresFail", "IncluderEnvKept",
+    cases, _ = ctx.tlc_mc("MC_C14", mc_cfg({}, ["Decided", "IncludeIsInlining", "NestedAndLoop", "EmptyIsIncluded", "ChangedFilesSeen", "CrossDirLaw", "TrimStopsAtTheEdge", "FailuresFail", "IncluderEnvKept",
                                                  "EmitCase"]))
     ctx.validate(ctx.run_cases(cases))
     return finish(ctx, rule="MC_C14: includer depth 0-2 x target in the same directory / below x argument as literal, variable, "
